@@ -229,6 +229,11 @@ def hypothesis_shard(item: dict[str, Any]) -> Collector:
         if flavour == "objective" and draw(st.booleans()):
             k_n = draw(st.integers(2, 3))
             case["obj_weights"] = [draw(st.sampled_from([0.5, 1.0, 2.0, 3.0])) for _ in range(k_n)]
+            if draw(st.booleans()):  # a negative weight (maximised objective) with a positive total
+                neg = draw(st.integers(0, k_n - 1))
+                case["obj_weights"][neg] = -0.5
+                if sum(case["obj_weights"]) <= 0:
+                    case["obj_weights"][(neg + 1) % k_n] = 3.0
             case["sort"] = sorted(draw(st.sets(st.integers(0, k_n - 1), min_size=1)))
             case["values"] = [[draw(value) for _ in range(k_n)] for _ in range(n)]
         else:
